@@ -1,14 +1,26 @@
 (** Correspondence for C04: the real lints' diagnostics counted per code vs the models of Lints/Closed.v,
     the value-judged conditions evaluated on the lints' own output, and plain template verdicts for the
     lints that are not modelled. *)
-From Selene Require Export Corr.Common Lints.Closed Lints.ClosedSpec Lints.Escape.
+From Selene Require Export Corr.Common Lints.Closed Lints.ClosedSpec Lints.Escape Lints.Same Lints.SameSpec Lints.Lines.
 
 Inductive c04case :=
 | CChunk (chunk : block) (div0 nan revloop empty_if empty_loop unbalanced mixed dupkeys paren tablecmp typecheck : nat)
 | CArgs (ps : list param) (a : args) (reported : bool)
 | CVerdict (lint : string) (expected : bool) (count : nat)
 | CEscape (q : quote) (roblox : bool) (literal : list N) (impl : list (nat * nat))
-| CEscapePanic.
+| CEscapePanic
+| CSame (chunk : block) (flagged : bool) (same_cond same_block swapped : nat)
+| CLines (cfg : one_line_if) (evs : list sev) (impl : list N).
+
+(** multiple_statements, judged on the implementation's own output: every reported statement has an
+    earlier-visited statement ending on its line *)
+Fixpoint has_earlier_same_line (seen : list N) (evs : list sev) (id : N) : bool :=
+  match evs with
+  | [] => false
+  | e :: r => (N.eqb (sv_id e) id && mem (sv_line e) seen) || has_earlier_same_line (sv_line e :: seen) r id
+  end.
+Definition count_n (x : N) (l : list N) : nat := List.length (filter (N.eqb x) l).
+Definition same_multiset (a b : list N) : bool := forallb (fun x => Nat.eqb (count_n x a) (count_n x b)) (a ++ b).
 
 (** L2: a zero spelled other than `0` next to a `/` *)
 Definition odd_zero (e : expr) : bool := denotes_zero e && negb (value_is_zero e).
@@ -50,6 +62,24 @@ Definition check_case (c : c04case) : N * N :=
       let inb := forallb (fun r => Nat.ltb (fst r) (snd r) && Nat.leb (snd r) (List.length lit)) impl in
       (bit (negb same) 1 + bit (negb (scan_fits q rb lit 0)) 2 + bit (negb inb) 4, 0)%N
   | CEscapePanic => (4, 0)%N
+  | CSame chunk flagged sc sb sw =>
+      let m := same_lint_counts chunk in
+      let ns := nodes_block chunk in
+      let spec_c := fold_right (fun n a => (spec_same_cond n + a)%nat) O ns in
+      let spec_b := fold_right (fun n a => (spec_same_block n + a)%nat) O ns in
+      let corr := Nat.eqb (n_same_cond m) sc && Nat.eqb (n_same_block m) sb && Nat.eqb (n_swapped m) sw in
+      (* full_moon's `similar` also compares the optional `;` after a statement, which the tree does not keep:
+         on flagged chunks the implementation may only report less *)
+      let over := Nat.ltb spec_c sc || Nat.ltb spec_b sb in
+      let under := Nat.ltb sc spec_c || Nat.ltb sb spec_b in
+      if flagged then (bit over 4, 0)%N
+      else (bit (negb corr) 1 + bit over 4 + bit under 8, 0)%N
+  | CLines cfg evs impl =>
+      let m := reported (lines_run cfg evs) in
+      let corr := same_multiset m impl in
+      let sound := forallb (has_earlier_same_line [] evs) impl in
+      let under := negb (forallb (fun id => mem id impl) (must_report evs)) in
+      (bit (negb corr) 1 + bit (negb sound) 4 + bit under 8, 0)%N
   end.
 
 Definition run := Common.run check_case.
